@@ -966,10 +966,33 @@ _any_summary = MODELS["core::iter::traits::iterator::Iterator::any"]
 
 
 def m_iter_any_dispatch(I, st, args, c, dest, target, span):
-    """Summarise when the iterator is a pure single-link chain walk and the predicate an identity test; otherwise unroll."""
+    """Summarise when the iterator is a pure single-link chain walk (possibly under `skip(n)`) and the predicate an identity test; otherwise unroll."""
     nk, ity = iter_next_key(I, c)
     if nk is not None and I.chain_protocol(nk) is not None:
         return _any_summary(I, st, args, c, dest, target, span)
+    if ity is not None and ity.get("path") == SKIP:
+        # Skip<chain walker>: advance the verified walker n times along its link, then summarise the rest
+        inner_ty = I.prog.ty(ity["args"][0])
+        ink = I.impl_index.get((ITER, "next", inner_ty.get("path")))
+        proto = I.chain_protocol(ink) if ink else None
+        itref = I.force(st, args[0])
+        sk = I.force(st, I.load(st, itref.root, itref.path))
+        n = sk.get("n") if isinstance(sk, VStruct) and sk.adt == SKIP else None
+        if proto is not None and isinstance(n, VInt) and n.t.is_const() and 0 <= n.t.c <= 4:
+            inner_ref = VRef(itref.root, itref.path + (("field", "iter"),), True)
+            cpath = inner_ref.path + proto["cursor_path"]
+            for _ in range(n.t.c):
+                cur = I.force(st, I.load(st, inner_ref.root, cpath))
+                if isinstance(cur, VEnum) and cur.variant == "Some":
+                    k = st.node_of_id(cur.get("0"))
+                    if k is None:
+                        raise Undecided("iterator cursor is not a node id")
+                    nxt = I.read_node_field(st, k, proto["field"])
+                    I.store(st, inner_ref.root, cpath, nxt, span)
+            I.store(st, itref.root, itref.path + (("field", "n"),), VInt(Lin(0), 64, False), span)
+            c2 = dict(c)
+            c2["args"] = [ity["args"][0]] + list((c.get("args") or [])[1:])
+            return _any_summary(I, st, [inner_ref] + list(args[1:]), c2, dest, target, span)
     return _any_unrolled(I, st, args, c, dest, target, span)
 
 
